@@ -70,8 +70,19 @@ def configs(ctx):
                     yield fam, False, K, regime, boxes[1], None, ex
                     yield fam, True, K, regime, None, tbs[-1], ex
     for K in (2, 5):
-        for regime in ('zeros', 'normal'):
+        for regime in ('zeros', 'normal', 'steep'):
             yield 'rq', True, K, regime, None, 1.0, {'enable_identity_init': True}
+        yield 'rq', True, K, 'steep', None, 3.0, None
+        yield 'rq', False, K, 'steep', (-1.5, 2.0, 0.25, 4.0), None, None
+    # the constructor-level guard `min_bin_* x num_bins <= 1` is about the NORMALISED bins, whatever the size of the box: just above it
+    # every call is refused (ValueError), just below it accepted — on wide boxes, on boxes narrower than one, with tails
+    for fam in ('rq', 'quad', 'cubic'):
+        for (K, mw, mh) in ((12, 0.1, 1e-3), (12, 1e-3, 0.1), (5, 0.19, 0.19), (4, 0.25, 0.25), (5, 0.21, 1e-3)):
+            ex = {'min_bin_width': mw, 'min_bin_height': mh}
+            for box in ((-3.0, 3.0, -3.0, 3.0), (0.0, 0.5, 0.0, 0.25), (0.0, 1.0, 0.0, 1.0)):
+                yield fam, False, K, 'normal', box, None, dict(ex)
+            yield fam, True, K, 'normal', None, 3.0, dict(ex)
+            yield fam, True, K, 'zeros', None, 0.4, dict(ex)
 
 
 def run_config(ctx, fam, tails, K, regime, box, B, gen, dtype=torch.float64, R=3, directions=(False, True), extra=None):
@@ -120,7 +131,8 @@ def _correspondence_once(ctx, rep=0):
         cfg = S.defaults(fam, tails)
         if extra:
             cfg.update(extra)
-        if not S.side_conditions(fam, tails, K, cfg):
+        refused = fam != 'lin' and (cfg.get('min_bin_width', 0) * K > 1.0 or cfg.get('min_bin_height', 0) * K > 1.0)   # documented: ValueError
+        if not refused and not S.side_conditions(fam, tails, K, cfg):
             ctx.proof_broken.append('side conditions of Properties.C09.knots_valid fail for the defaults read from the code: %s %s' % (fam, cfg))
         for (inverse, xin, flatp, kinds, A) in run_config(ctx, fam, tails, K, regime, box, B, gen, extra=extra):
             # usage order: a single-precision call with the same bin count comes first (state kept between calls must not leak a dtype)
@@ -217,6 +229,12 @@ def oracle_config(ctx, fam, tails, K, regime, box, B, extra, gen, npts=64):
             ctx.fail('a dense non-contiguous input tensor gives a different result (%s): x=%r contiguous f(x)=%r, non-contiguous %r'
                      % (kn_, grid[j].item(), y[j].item(), None if kn_ != 'ok' else yn.reshape(-1)[j].item()),
                      dict(case, x=grid[j].item(), layout='t().contiguous().t()'), match={'fam': fam, 'symptom': 'layout'}); return
+    d0 = S.defaults(fam, tails); d0.update(extra or {})
+    if fam != 'lin' and (d0.get('min_bin_width', 0) * K > 1.0 or d0.get('min_bin_height', 0) * K > 1.0):
+        # the minimal bins do not fit: the documented outcome is a ValueError, whatever the size of the box
+        if kind != 'ValueError':
+            ctx.fail('a configuration whose minimal bins do not fit (num_bins x minimum > 1) is accepted (%s)' % kind, case, match={'fam': fam, 'symptom': 'guard-accepts'})
+        return
     if fam == 'quad' and tails and K == 1:
         return  # known finding F27 (listed under C17): constructed without complaint, every call raises IndexError
     if kind != 'ok':
